@@ -51,6 +51,13 @@ def main():
            "|---|---|---|---|---|---|"]
     for r in rows:
         out.append("| " + " | ".join(r) + " |")
+    reg = os.path.join(VERIF, "seeded", "regressions.json")
+    if os.path.exists(reg):
+        out += ["", "## Regressions of the whole set with the final checks (`tools/seeded.py prun`, every change in its own scratch worktree)", ""]
+        for r in json.load(open(reg)):
+            out.append(f"* `VERIF_SEED={r['seed']}`: {r['run']} changes run, {r['caught_with_failing_input']} caught with a concrete failing input, "
+                       f"{r['no_failing_input_found']} reported without one, {r['missed']} missed ({r['when']}, /verif at {r['verif_commit']})."
+                       + (" " + r["note"][0].upper() + r["note"][1:] + "." if r.get("note") else ""))
     open(os.path.join(VERIF, "seeded", "RESULTS.md"), "w").write("\n".join(out) + "\n")
     print(stats)
 
